@@ -179,7 +179,7 @@ class GaussianPDF(measure.GaussianMeasure):
         from . import conditional
 
         dim_xy = jnp.arange(self.D, dtype=jnp.int32)
-        dim_x = jnp.setxor1d(dim_xy, dim_y)
+        dim_x = jnp.setxor1d(dim_xy, dim_y, size=self.D - len(dim_y))
         # dim_x = dim_xy[jnp.logical_not(jnp.isin(dim_xy, dim_y))]
         Lambda_x = self.Lambda[:, dim_x][:, :, dim_x]
         Sigma_x, ln_det_Lambda_x = invert_matrix(Lambda_x)
